@@ -296,24 +296,50 @@ def check_request_line(ck, env, RP="C01"):
         ck.ob(R, fi, c, idx == [1, 2, 3], "RequestStartLine(method, path, version) is built from groups 1, 2, 3 in order")
 
 
+def _other_tests_on(fi, names, recognised_calls=()):
+    """test nodes of ``fi`` that mention one of ``names`` but are none of the recognised validating calls: evidence that
+    a validation exists in a shape the rule cannot read (-> not decided), as opposed to no validation at all"""
+    rec = set(id(c) for c in recognised_calls)
+    out = []
+    for n in fi.cfg.stmt_nodes(lambda n: n.kind == "test"):
+        if (q.names_in(n.ast) & set(names)) and not any(id(x) in rec for x in ast.walk(n.ast)):
+            out.append(n)
+    return out
+
+
+def _undecided_unless_absent(fi, what, names, recognised_calls, edges):
+    """Rule 3: a missing guard is a violation only if nothing at all tests the governed value"""
+    if not edges:
+        others = _other_tests_on(fi, names, recognised_calls)
+        if others:
+            raise AnalysisError("%s: %s is tested in a form the rule does not recognise (%s)" % (fi.qualname, what, q.unparse(others[0].ast)[:80]))
+
+
 def _store_nodes(fi, dict_attr):
     """CFG nodes of ``fi`` that put a value into the header multimap: ``self[k] = v``,
     assignment/aug-assignment under ``self.<dict_attr>[...]``, ``self.<dict_attr>[k].append/extend/insert(v)``.
     Returns [(node, value expr)]."""
     out = []
+    flow = Flow(fi)
 
-    def under_dict(t):
-        return any(isinstance(x, ast.Attribute) and x.attr == dict_attr and q.dotted(x) == "self." + dict_attr for x in ast.walk(t))
+    def under_dict(t, node):
+        # the subscripted container, seen through local aliases (`values = self.<dict>[k]; values[-1] = ...`)
+        e = flow.expand(t, node)
+        return any(isinstance(x, ast.Attribute) and x.attr == dict_attr and q.dotted(x) == "self." + dict_attr for x in ast.walk(e))
 
     for n in fi.cfg.stmt_nodes(lambda n: n.kind == "stmt"):
         st = n.ast
         if isinstance(st, ast.Assign):
             for t in st.targets:
-                if isinstance(t, ast.Subscript) and (q.dotted(t.value) == "self" or under_dict(t)):
-                    out.append((n, st.value))
-        elif isinstance(st, ast.AugAssign) and isinstance(st.target, ast.Subscript) and under_dict(st.target):
+                if isinstance(t, ast.Subscript) and (q.dotted(t.value) == "self" or under_dict(t.value, n)):
+                    v = st.value
+                    # x[i] = x[i] + v   is   x[i] += v
+                    if isinstance(v, ast.BinOp) and isinstance(v.op, ast.Add) and same_expr(v.left, t):
+                        v = v.right
+                    out.append((n, v))
+        elif isinstance(st, ast.AugAssign) and isinstance(st.target, ast.Subscript) and under_dict(st.target.value, n):
             out.append((n, st.value))
-        elif isinstance(st, ast.Expr) and isinstance(st.value, ast.Call) and isinstance(st.value.func, ast.Attribute) and st.value.func.attr in ("append", "extend", "insert") and under_dict(st.value.func.value):
+        elif isinstance(st, ast.Expr) and isinstance(st.value, ast.Call) and isinstance(st.value.func, ast.Attribute) and st.value.func.attr in ("append", "extend", "insert") and under_dict(st.value.func.value, n):
             out.append((n, st.value.args[-1] if st.value.args else None))
     return out
 
@@ -377,6 +403,8 @@ def check_header_fields(ck, env, RP="C01"):
         vneg |= n
         value_lang(RP + ".header-value", add, c, m, pat, "the field value")
     off = flag_off(add.cfg, flag)
+    _undecided_unless_absent(add, "the field name", {name_p}, [x[0] for x in name_calls], npos)
+    _undecided_unless_absent(add, "the field value", {value_p}, [x[0] for x in rc], vpos)
     for node, v in stores:
         ck.ob(RP + ".header-name", add, node.ast, only_through(add.cfg, node, npos), "store into the multimap only after the name matched token")
         ck.ob(RP + ".header-name", add, node.ast, not rebinds_between(add.cfg, npos, node, {name_p}), "the checked name is not re-bound before the store")
@@ -399,8 +427,10 @@ def check_header_fields(ck, env, RP="C01"):
     def _store_key(node):
         """the (expanded) expression naming the field a continuation store extends: self.<dict>[KEY][-1] += ..."""
         tgt = node.ast.target if isinstance(node.ast, ast.AugAssign) else (node.ast.targets[0] if isinstance(node.ast, ast.Assign) else None)
-        if isinstance(tgt, ast.Subscript) and isinstance(tgt.value, ast.Subscript):
-            return plflow.expand(tgt.value.slice, node)
+        if isinstance(tgt, ast.Subscript):
+            base = plflow.expand(tgt.value, node)
+            if isinstance(base, ast.Subscript):
+                return base.slice
         return None
 
     def lastkey_edges(key):
@@ -426,6 +456,7 @@ def check_header_fields(ck, env, RP="C01"):
                 if isinstance(subj, ast.Subscript) and isinstance(subj.slice, ast.Slice):
                     lo = subj.slice.lower
                     ck.ob(R, pl, c, subj.slice.upper is None and isinstance(lo, ast.Constant) and lo.value == 1, "the validated text is the stored text without the one joining space")
+        _undecided_unless_absent(pl, "the continuation text", {v.id}, [x[0] for x in prc], pos)
         ck.ob(R, pl, node.ast, only_through(pl.cfg, node, pos | off), "a folded line is appended only after it matched field-value (HTTP mode)")
         ck.ob(R, pl, node.ast, not rebinds_between(pl.cfg, pos, node, {v.id}), "the checked continuation text is not re-bound before the append")
         key = _store_key(node)
@@ -456,20 +487,121 @@ def check_header_fields(ck, env, RP="C01"):
     for c in pc:
         kv = q.kwarg(c, pfl)
         ck.ob(R, ph, c, (kv is None or q.is_const(kv, True)) and not any(k.arg is None for k in c.keywords), "the connection parses header blocks in strict HTTP mode")
-    # every line of the block goes through parse_line
-    R = RP + ".header-line-split"
+    check_parse_line_folded(ck, RP)
+
+
+def regex_folder(ck, fi):
+    """fallback hook for vt.x_absint: fold ``re.<m>(<constant pattern>, text)`` and ``<module/class-level pattern>.<m>(text)``
+    with the stdlib's re on the pattern text obtained by static evaluation (no tornado code runs)"""
+    import re as _re
+    from ..x_absint import UNK
+    renv = RegexEnv(ck.repo)
+
+    def fb(st, c, d, args):
+        if not (isinstance(c.func, ast.Attribute) and c.func.attr in ("search", "match", "fullmatch", "split")) or c.keywords:
+            return NotImplemented
+        if q.dotted(c.func.value) == "re":
+            if len(c.args) >= 2 and isinstance(c.args[0], ast.Constant) and isinstance(args[0], (str, bytes)) and isinstance(args[1], type(args[0])):
+                return getattr(_re, c.func.attr)(args[0], args[1])
+            return NotImplemented
+        try:
+            pat = renv.pattern(fi, c.func.value)
+        except AnalysisError:
+            pat = None
+        if pat is not None and len(args) == 1 and isinstance(args[0], type(pat)):
+            return getattr(_re.compile(pat), c.func.attr)(args[0])
+        if pat is not None and len(args) == 1 and args[0] is not UNK and not isinstance(args[0], type(pat)):
+            return UNK
+        return NotImplemented
+
+    return fb
+
+
+def fold_parse_line(ck, pl, line, last_key="X-A", http_mode=True):
+    """Fold HTTPHeaders.parse_line for one concrete line.  Returns [(kind, exc, add() calls, stored values of X-A)]."""
+    from ..x_absint import Evaluator, Obj, UNK
+    ps = [p for p in pl.params() if p != "self"]
+    flag, _d = _flag_param(pl)
+    adds = []
+    ev = Evaluator()
+
+    def on_call(st, c, d, args):
+        if d == "self.add":
+            kw = {k.arg: ev.ev(k.value, st) for k in c.keywords if k.arg}
+            adds.append((tuple(args), kw))
+
+    ev.on_call = on_call
+    ev.funcs["self.add"] = lambda st, *a: None
+    ev.fallback = regex_folder(ck, pl)
+    env = {k: v.value for k, v in pl.module.assigns.items() if isinstance(v, ast.Constant) and isinstance(v.value, (str, bytes, int))}
+    me = Obj("self", _as_list={"X-A": ["v"]}, _combined_cache={"X-A": "v"}, _last_key=last_key)
+    da = _dict_attr(ck)
+    if da != "_as_list":
+        me.attrs[da] = me.attrs.pop("_as_list")
+    env.update({"self": me, ps[0]: line, flag: http_mode})
+    outs = ev.run(pl.node, env)
+    res = []
+    for o in outs:
+        stored = o.state.env["self"].attrs[da].get("X-A")
+        res.append((o.kind, o.value if o.kind == "raise" else None, list(adds), stored))
+    return res
+
+
+PARSE_LINE_CASES = [
+    # (line, last_key, expected: ("add", name, value) | ("error",) | ("cont", stored last value) | ("nothing",))
+    ("Name: value\r\n", "X-A", ("add", "Name", "value")),
+    ("Name:value", "X-A", ("add", "Name", "value")),
+    ("Name: v\n", "X-A", ("add", "Name", "v")),
+    ("Name:\t v \t\r\n", "X-A", ("add", "Name", "v")),
+    ("a: b: c", "X-A", ("add", "a", "b: c")),                   # split at the first colon only
+    ("Name : v", "X-A", ("add", "Name ", "v")),                 # name untouched: validation must see the blank
+    ("Name: \x0bv\x0b", "X-A", ("add", "Name", "\x0bv\x0b")),   # only SP/HTAB are trimmed: validation must see VT
+    ("Name: v\xa0", "X-A", ("add", "Name", "v\xa0")),
+    ("Name: v\r\r\n", "X-A", ("add", "Name", "v\r")),          # exactly one CR? LF removed
+    ("no colon here", "X-A", ("error",)),
+    (" cont", "X-A", ("cont", "v cont")),
+    ("\tcont\t \r\n", "X-A", ("cont", "v cont")),
+    (" bad\x00", "X-A", ("error",)),
+    (" bad\x0b", "X-A", ("error",)),
+    (" cont", None, ("error",)),
+    ("", "X-A", ("nothing",)),
+    ("\r\n", "X-A", ("nothing",)),
+]
+
+
+def check_parse_line_folded(ck, RP="C01"):
+    """HTTPHeaders.parse_line folded on concrete lines (helpers inlined): where the line is split, what is trimmed,
+    what reaches add(), what a continuation does — independent of how the function is written."""
+    pl = _F(ck, HU, "HTTPHeaders.parse_line")
+    addf = ck.repo.func(HU, "HTTPHeaders.add")
+    aflag, _d = _flag_param(addf)
     n = 0
-    for f in (pl,):
-        pm = q.parent_map(f.node)
-        for st in q.walk_body(f.node):
-            if isinstance(st, ast.Assign) and isinstance(st.targets[0], (ast.Tuple, ast.List)) and isinstance(st.value, ast.Call) and q.call_attr(st.value) in ("split", "rsplit"):
-                n += 1
-                h = q.protected_by(pm, st, "ValueError")
-                ok = h is not None and any(isinstance(s, ast.Raise) and _is_input_error(raised_class(s)) for s in q.walk_local(h))
-                ck.ob(R, f, st, ok, "a header line without ':' raises HTTPInputError (tuple unpack protected by a ValueError handler)")
-                sep = st.value.args[0] if st.value.args else None
-                ck.ob(R, f, st, _const_str(sep, ":") and len(st.value.args) > 1 and q.is_const(st.value.args[1], 1) and q.call_attr(st.value) == "split", "name and value are separated at the first ':' only")
-    ck.floor(R, n, 1, "name/value splits in parse_line")
+    for line, last_key, want in PARSE_LINE_CASES:
+        outs = fold_parse_line(ck, pl, line, last_key)
+        if not outs:
+            raise AnalysisError("parse_line: no outcome for %r" % line)
+        for kind, exc, adds, stored in outs:
+            n += 1
+            if any(a is __import__("vt.x_absint", fromlist=["UNK"]).UNK for call in adds for a in call[0]):
+                raise AnalysisError("parse_line: arguments of add() not decidable for %r" % line)
+            tag = "line %r%s" % (line, "" if last_key else " (first line)")
+            if want[0] == "add":
+                R = RP + (".wire-text-exact" if ("\x0b" in line or " :" in line or "\xa0" in line or "\r\r" in line) else ".header-line-split")
+                ok = kind != "raise" and len(adds) == 1 and tuple(adds[0][0][:2]) == (want[1], want[2]) and stored == ["v"]
+                ck.ob(R, pl, pl.node, ok, "%s is handed to add() as name %r, value %r (split at the first ':', SP/HTAB trimmed from the value only, one line end removed) — got %s" % (
+                    tag, want[1], want[2], exc if kind == "raise" else [a[0] for a in adds]), construct="parse_line %r" % line)
+                if ok:
+                    kw = adds[0][1]
+                    fl = kw.get(aflag, adds[0][0][2] if len(adds[0][0]) > 2 else None)
+                    ck.ob(RP + ".strict-header-mode", pl, pl.node, fl is True, "parse_line forwards the HTTP validation mode to add() [%s]" % tag, construct="parse_line forwards mode %r" % line)
+            elif want[0] == "error":
+                R = RP + (".header-line-split" if "colon" in line else ".header-continuation")
+                ck.ob(R, pl, pl.node, kind == "raise" and _is_input_error(exc) and not adds and stored == ["v"], "%s raises HTTPInputError and stores nothing — got %s" % (tag, exc if kind == "raise" else (kind, adds, stored)), construct="parse_line %r%s" % (line, "" if last_key else " first"))
+            elif want[0] == "cont":
+                ck.ob(RP + ".header-continuation", pl, pl.node, kind != "raise" and not adds and stored == [want[1]], "%s extends the last value of the previous field by one SP and the trimmed text — got %s" % (tag, exc if kind == "raise" else stored), construct="parse_line %r" % line)
+            else:
+                ck.ob(RP + ".header-line-split", pl, pl.node, kind != "raise" and not adds and stored == ["v"], "%s is ignored — got %s" % (tag, exc if kind == "raise" else (adds, stored)), construct="parse_line %r" % line)
+    ck.floor(RP + ".header-line-split", n, len(PARSE_LINE_CASES), "folded parse_line outcomes")
 
 
 def check_multimap_for_framing(ck, RP="C01"):
@@ -503,6 +635,12 @@ def check_multimap_for_framing(ck, RP="C01"):
 
     absent_e = atom_edges(cfg, lambda a: None if present(a) is None else False)
     present_e = atom_edges(cfg, present)
+    if not absent_e:
+        pm_ = q.parent_map(add.node)
+        other = [n for n in cfg.stmt_nodes(lambda n: n.kind == "test") if K in q.names_in(n.ast)]
+        trys = [t for t in q.walk_body(add.node) if isinstance(t, ast.Try) and any("KeyError" in q.handler_names(h) for h in t.handlers)]
+        if other or trys:
+            raise AnalysisError("HTTPHeaders.add: presence of the field is tested in a form the rule does not recognise")
     n_rep = n_app = 0
     for node, v in stores:
         if isinstance(node.ast, ast.Assign):
@@ -526,20 +664,27 @@ def check_multimap_for_framing(ck, RP="C01"):
     pl = _F(ck, HU, "HTTPHeaders.parse_line")
     lk = None
     plflow = Flow(pl)
+    def _cont_target(node):
+        """(expanded key, index) of a continuation store  self.<dict>[KEY][IDX] (+)= ..."""
+        tgt = node.ast.target if isinstance(node.ast, ast.AugAssign) else (node.ast.targets[0] if isinstance(node.ast, ast.Assign) else None)
+        if isinstance(tgt, ast.Subscript):
+            base = plflow.expand(tgt.value, node)
+            if isinstance(base, ast.Subscript):
+                return q.dotted(base.slice), tgt.slice
+        return None, None
+
     for node, v in _store_nodes(pl, da):
-        tgt = node.ast.target if isinstance(node.ast, ast.AugAssign) else None
-        if tgt is not None and isinstance(tgt, ast.Subscript) and isinstance(tgt.value, ast.Subscript):
-            k = q.dotted(plflow.expand(tgt.value.slice, node))
-            if k and k.startswith("self."):
-                lk = k
+        k, _idx = _cont_target(node)
+        if k and k.startswith("self."):
+            lk = k
     if lk is None:
         raise AnalysisError("parse_line: cannot identify the attribute naming the field a continuation extends")
     sets = {n.id for n in cfg.stmt_nodes(lambda n: n.kind == "stmt" and isinstance(n.ast, ast.Assign) and lk in q.assigned_paths(n.ast) and q.dotted(n.ast.value) == K)}
     r = reach_without(cfg, (), follow_exc=False, stop=lambda n: n.id in sets)
     ck.ob(RP + ".header-continuation", add, add.node, cfg.exit.id not in r, "add() records the field it stored as the target of a following obs-fold continuation (%s = %s on every normal path)" % (lk, K), construct="add: exit without %s update" % lk)
     for node, v in _store_nodes(pl, da):
-        tgt = node.ast.target if isinstance(node.ast, ast.AugAssign) else None
-        ok = tgt is not None and isinstance(tgt, ast.Subscript) and q.is_const(getattr(tgt.slice, "operand", None), 1) and isinstance(tgt.slice, ast.UnaryOp) and isinstance(tgt.value, ast.Subscript) and q.dotted(plflow.expand(tgt.value.slice, node)) == lk
+        k, idx = _cont_target(node)
+        ok = k == lk and isinstance(idx, ast.UnaryOp) and isinstance(idx.op, ast.USub) and q.is_const(idx.operand, 1)
         ck.ob(RP + ".header-continuation", pl, node.ast, ok, "a continuation is appended to the last value of the field added last")
 
 
@@ -715,6 +860,18 @@ def check_transfer_encoding(ck, RP="C01"):
         return None
 
     eq = atom_edges(cfg, is_chunked_eq)
+    if not eq:
+        # positively bad: substring / prefix / suffix / regex tests of the coding; anything else unrecognised is not decided
+        def loose(a):
+            if isinstance(a, ast.Compare) and len(a.ops) == 1 and isinstance(a.ops[0], ast.In) and _const_str(a.left) and te_value(a.comparators[0]):
+                return True
+            if isinstance(a, ast.Call) and isinstance(a.func, ast.Attribute) and a.func.attr in ("startswith", "endswith", "find", "count", "search", "match") and (te_value(a.func.value) or any(te_value(x) for x in a.args)):
+                return True
+            return False
+        tests = [n for n in cfg.stmt_nodes(lambda n: n.kind == "test") if any(te_value(x) for x in ast.walk(n.ast) if isinstance(x, (ast.Subscript, ast.Call, ast.Name)))]
+        tests = [n for n in tests if not _hdr_in(canon_atom(n.ast)[0], "Transfer-Encoding", hp)]
+        if tests and not any(loose(canon_atom(n.ast)[0]) for n in tests):
+            raise AnalysisError("is_transfer_encoding_chunked: the coding is tested in a form the rule does not recognise (%s)" % q.unparse(tests[0].ast)[:80])
     te_absent = atom_edges(cfg, _hdr_absent("Transfer-Encoding", hp, binds))
     cl_abs = _hdr_absent("Content-Length", hp, binds)
     cl_absent = atom_edges(cfg, cl_abs)
@@ -770,24 +927,46 @@ def check_ints(ck, env, tree, RP="C01"):
                         exact = True
                         ml = lang.max_length()
                         bounded = bounded or (ml is not None and ml <= INT_LIMIT)
-            # operand is a capture group of a digits regex
+            # operand is (through aliases / tuple unpacking) a capture group of a digits regex
             grp = False
-            if isinstance(op, ast.Call) and q.call_attr(op) == "group" and op.args and isinstance(op.args[0], ast.Constant) and isinstance(op.func, ast.Attribute):
-                mv = op.func.value
-                src = binds.get(mv.id) if isinstance(mv, ast.Name) else mv
+            flow = Flow(f)
+            op_e = flow.expand(op, node)
+            gi = group_index(op_e)
+            if gi is not None:
+                u = unpack_of(op_e)
+                gcall = u[0] if u is not None else op_e
+                recv = gcall.func.value if isinstance(gcall, ast.Call) and isinstance(gcall.func, ast.Attribute) else (gcall.value if isinstance(gcall, ast.Subscript) else None)
                 for rcall, m, pat, subj in rc:
-                    if src is rcall:
-                        g = group_rx(pat, op.args[0].value)
+                    rnode = flow.node_of(rcall)
+                    if recv is not None and same_expr(recv, flow.expand(rcall, rnode)):
+                        g = group_rx(pat, gi)
                         ml = g.max_length()
                         if g.subset_of(ref):
                             grp = True
                             exact = True
+                            bounded = bounded or (ml is not None and ml <= INT_LIMIT)
+            if not guard_pos and not grp:
+                for rcall, m, pat, subj in rc:
+                    if subj is not None and same_expr(flow.expand(subj, flow.node_of(rcall)), op_e):
+                        lang = env.rx(pat, m)
+                        if m == "fullmatch" and lang.subset_of(ref):
+                            p, _n = truthy_edges(f, lambda e, rcall=rcall: e is rcall)
+                            guard_pos |= p
+                            exact = True
+                            ml = lang.max_length()
                             bounded = bounded or (ml is not None and ml <= INT_LIMIT)
             guarded = grp or (bool(guard_pos) and only_through(f.cfg, node, guard_pos) and not rebinds_between(f.cfg, guard_pos, node, q.names_in(op)))
             handled = handler_for(f, c, "ValueError") is not None
             if not handled:
                 sites = call_sites_in(tree, repo, f)
                 handled = bool(sites) and all(handler_for(cf, cc, "ValueError") is not None for cf, cc in sites)
+            if not (handled or (guarded and bounded)) or (f.file == H1 and not (guarded and exact)):
+                # a violation needs a fully recognised operand: parameters, header lookups, match groups, slices and
+                # decoding wrappers only — anything else (merged definitions, unknown calls) is not decided
+                unknown = [x for x in ast.walk(op_e) if (isinstance(x, ast.Name) and "@" in x.id) or
+                           (isinstance(x, ast.Call) and q.call_attr(x) not in ("group", "groups", "__unpack__", "native_str", "to_unicode", "decode", "fullmatch", "match", "search", "get", "strip", "lstrip", "rstrip", "lower", "split", "partition", "read_until", "read_until_regex", "read_bytes", "read_until_close"))]
+                if unknown:
+                    raise AnalysisError("int() operand of unrecognised origin (%s) at %s" % (q.unparse(op_e)[:80], f.site(c)))
             if f.file == H1:
                 n_strict += 1
                 ck.ob(RP + ".sint", f, c, guarded and exact, "int() of wire text in the framing code is guarded by fullmatch of an ASCII-%s regex on the same operand" % ("digit" if base == 10 else "hex-digit"))
@@ -887,6 +1066,12 @@ def check_chunked(ck, tree, RP="C01"):
                          or (q.dotted(x.comparators[0]) == X and isinstance(x.left, ast.Constant) and x.left.value == b"\r\n")))
 
         ok, bad = forward_until(hcfg, node, lambda n: node_mentions(n, is_cmp), lambda n: node_mentions(n, _stream_read) or (n.kind == "stmt" and isinstance(n.ast, ast.Return)))
+        if not ok:
+            fwd_ = reach_without(hcfg, (), start=node.id, follow_exc=False, stop=lambda n: node_mentions(n, _stream_read))
+            fwd_ = {i_ for i_ in fwd_ if not node_mentions(hcfg.nodes[i_], _stream_read)}
+            used = [n for n in hcfg.stmt_nodes() if n.id != node.id and n.id in fwd_ and node_mentions(n, lambda x: isinstance(x, ast.Name) and x.id == X and isinstance(x.ctx, ast.Load))]
+            if used:
+                raise AnalysisError("%s: the terminator bytes are used in a form the rule does not recognise (%s)" % (hf.qualname, q.unparse(used[0].ast)[:80]))
         ck.ob(R, hf, c, ok, "the 2 bytes after chunk data / the last chunk are compared with CRLF before anything else is read")
         mism = atom_edges(hcfg, lambda a, is_cmp=is_cmp: False if is_cmp(a) else None)
         mism = {e for e in mism if e[0] in reach_without(hcfg, (), start=node.id, follow_exc=False)}
@@ -928,9 +1113,19 @@ def check_counted_reads(ck, fi, length_sources, RP="C01"):
             ok = q.dotted(size) == Rv
         ck.ob(R, fi, c, ok, "a data read never asks for more than the bytes still owed (%s)" % Rv)
         decs = [s for s in loop.body if isinstance(s, ast.AugAssign) and isinstance(s.op, ast.Sub) and q.dotted(s.target) == Rv]
+        for s_ in loop.body:
+            # R = R - len(D)  is  R -= len(D)
+            if isinstance(s_, ast.Assign) and len(s_.targets) == 1 and q.dotted(s_.targets[0]) == Rv and isinstance(s_.value, ast.BinOp) and isinstance(s_.value.op, ast.Sub) and q.dotted(s_.value.left) == Rv:
+                aug = ast.copy_location(ast.AugAssign(target=s_.targets[0], op=ast.Sub(), value=s_.value.right), s_)
+                loop.body[loop.body.index(s_)] = aug if False else s_
+                decs.append(aug)
+                aug._orig = s_
+        dec_stmts = [getattr(d_, "_orig", d_) for d_ in decs]
         okd = (len(decs) == 1 and isinstance(decs[0].value, ast.Call) and q.call_attr(decs[0].value) == "len" and len(decs[0].value.args) == 1 and q.dotted(decs[0].value.args[0]) == D
-               and any(s is st for s in loop.body) and loop.body.index(decs[0]) > loop.body.index(st))
-        others = [s for s in q.walk_local(loop) if isinstance(s, (ast.Assign, ast.AugAssign)) and Rv in q.assigned_paths(s) and s not in decs]
+               and any(s is st for s in loop.body) and loop.body.index(dec_stmts[0]) > loop.body.index(st))
+        others = [s for s in q.walk_local(loop) if isinstance(s, (ast.Assign, ast.AugAssign)) and Rv in q.assigned_paths(s) and s not in dec_stmts]
+        if not okd and not decs and others and not all(isinstance(o_, ast.AugAssign) and isinstance(o_.op, ast.Sub) for o_ in others):
+            raise AnalysisError("%s: the owed count is updated in a form the rule does not recognise (%s)" % (fi.qualname, q.unparse(others[0])[:80]))
         ck.ob(R, fi, c, okd and not others, "the owed count is decremented by exactly len(received) once per read, unconditionally")
         # where does the count come from
         if Rv in fi.params():
@@ -1061,6 +1256,10 @@ def check_host(ck, env, RP="C01"):
         comma_free = lang.excludes_symbols([ord(",")])
     comma = atom_edges(cfg, lambda a: False if (isinstance(a, ast.Compare) and isinstance(a.ops[0], ast.In) and _const_str(a.left, ",") and q.dotted(a.comparators[0]) == host_attr) else None)
     comma_t = atom_edges(cfg, lambda a: True if (isinstance(a, ast.Compare) and isinstance(a.ops[0], ast.In) and _const_str(a.left, ",") and q.dotted(a.comparators[0]) == host_attr) else None)
+    if not comma and not comma_free:
+        other = [n for n in cfg.stmt_nodes(lambda n: n.kind == "test") if any(_const_str(x, ",") for x in ast.walk(n.ast)) or any(isinstance(x, ast.Call) and q.call_attr(x) == "get_list" for x in ast.walk(n.ast))]
+        if other:
+            raise AnalysisError("HTTPServerRequest.__init__: multiple Host values are tested in a form the rule does not recognise (%s)" % q.unparse(other[0].ast)[:80])
     for node in exit_nodes:
         anchor = node.ast if node.ast is not None else fi.node
         ck.ob(R, fi, anchor, only_through(cfg, node, pos), "a request object exists only if its Host matched", construct="exit: host matched")
@@ -1107,6 +1306,10 @@ def check_400(ck, RP="C01"):
             for x in q.walk_local(w.ast):
                 if isinstance(x, ast.Call) and q.call_attr(x) == "write":
                     a = x.args[0] if x.args else None
+                    if isinstance(a, ast.Name) and isinstance(fi.module.assigns.get(a.id), ast.Constant):
+                        a = fi.module.assigns[a.id]
+                    if not (isinstance(a, ast.Constant) and isinstance(a.value, bytes)):
+                        raise AnalysisError("_read_message: the error response is not a bytes constant (%s)" % q.unparse(x)[:80])
                     okc = isinstance(a, ast.Constant) and isinstance(a.value, bytes) and ref.accepts(a.value)
                     ck.ob(R, fi, x, okc, "the error response is a complete 'HTTP/1.x 400 ...' header block")
                     if okc:
@@ -1255,20 +1458,8 @@ def check_wire_exact(ck, tree, RP="C01"):
     def ows_strip(c):
         return c.func.attr in ("strip", "lstrip", "rstrip") and len(c.args) == 1 and not c.keywords and const_str(c.args[0]) is not None and const_str(c.args[0]) != "" and set(const_str(c.args[0])) <= {" ", "\t"}
 
+    # (parse_line's own trimming is decided by folding it on concrete lines: check_parse_line_folded)
     pl = _F(ck, HU, "HTTPHeaders.parse_line")
-    binds = single_bindings(pl.node)
-    adds = [c for c in q.calls(pl.node) if q.call_attr(c) == "add" and q.dotted(c.func.value) == "self"]
-    ck.floor(R, len(adds), 1, "self.add calls in parse_line")
-    for c in adds:
-        if len(c.args) < 2:
-            raise AnalysisError("parse_line: add() call of unknown shape")
-        nm, val = _expand(c.args[0], binds), _expand(c.args[1], binds)
-        ck.ob(R, pl, c, not [x for x in ast.walk(nm) if isinstance(x, ast.Call)], "the field name is passed to validation untouched (whitespace before ':' must be rejected, not trimmed)")
-        bad = _normaliser_calls(val, allow=ows_strip)
-        ck.ob(R, pl, c, not bad, "the field value is trimmed of optional whitespace (SP/HTAB) only")
-    for c in q.calls(pl.node):
-        if isinstance(c.func, ast.Attribute) and c.func.attr in ("strip", "lstrip", "rstrip") and not ows_strip(c):
-            ck.ob(R, pl, c, False, "parse_line trims SP/HTAB only (a broader strip would hide control characters from validation)")
     ph = _F(ck, H1, "HTTP1Connection._parse_headers")
     crlf_strip = lambda c: c.func.attr in ("lstrip", "rstrip", "strip") and len(c.args) == 1 and not c.keywords and isinstance(c.args[0], ast.Constant) and isinstance(c.args[0].value, str) and c.args[0].value != "" and set(c.args[0].value) <= {"\r", "\n"}
     k = 0
